@@ -80,18 +80,25 @@ def run(ctx):
         ctx.model_mismatch("is_space table vs running interpreter", {"code_points": bad[:20]}, "table", "interpreter", None)
 
     cfgs = configs()
-    Lk = ctx.size(4, 5)
     cases = []
+    import itertools
     for c in cfgs:
         alpha = L.fragment_alphabet(c)
         if c.keep:
             alpha = alpha + ["\r"]
-        for s in L.all_strings(alpha, Lk if not c.keep else Lk - 1):
+        # exhaustive length per configuration: quick 4 (default delimiters 5); thorough 5 for the default and
+        # line-statement sets (default with both options also 6), 4 for the other sets (their alphabets have
+        # 12-13 characters; 13^5 x 27 configurations would be ~10 M cases)
+        if ctx.tier == "thorough":
+            Lk = 5 if c.name in ("default", "line") else 4
+        else:
+            Lk = 4
+        if c.keep:
+            Lk -= 1
+        for s in L.all_strings(alpha, Lk):
             cases.append((c, s))
-        if c.name == "default" and not c.keep:
-            n = Lk + 1
-            import itertools
-            for t in itertools.product(alpha, repeat=n):
+        if c.name == "default" and not c.keep and (ctx.tier != "thorough" or (c.trim and c.lstrip)):
+            for t in itertools.product(alpha, repeat=Lk + 1):
                 cases.append((c, "".join(t)))
     nrand = ctx.size(500, 5000)
     for c in cfgs:
